@@ -98,7 +98,8 @@ var addCmd = &cobra.Command{
 			if _, err := os.Stat(arg); err != nil {
 				_, _, isEntryFound := client.Idx.GetEntry([]byte(cleanedArg))
 				if !isEntryFound {
-					return fmt.Errorf(`path "%s" did not match any files`, arg)
+					// the arguments were validated above: the same deleted path was named before and is already unstaged
+					continue
 				}
 				if err := client.Idx.DeleteEntry(client.RootGoitPath, []byte(cleanedArg)); err != nil {
 					return fmt.Errorf("fail to delete untracked file %s: %w", cleanedArg, err)
